@@ -2,6 +2,7 @@ package main
 
 import (
 	"fmt"
+	"go/token"
 	"go/types"
 	"sort"
 	"strings"
@@ -28,7 +29,289 @@ func runFrame(w *World, sp *Specs, name string) *FrameResult {
 	if f, ok := frameChecks[name]; ok {
 		return f(w, sp)
 	}
-	return &FrameResult{Name: name, Desc: "unknown frame check", OK: false, Violations: []string{"frame check " + name + " is not implemented"}}
+	if fs, ok := sp.Frames[name]; ok {
+		return evalFrameSpec(w, sp, fs)
+	}
+	return &FrameResult{Name: name, Desc: "unknown frame check", OK: false, Violations: []string{"frame obligation " + name + " is not declared in any contract file"}}
+}
+
+func matchFunc(key string, allowed []string) bool {
+	for _, a := range allowed {
+		if a == key || strings.HasSuffix(key, "."+a) || strings.HasPrefix(key, a+"$") || strings.HasPrefix(key, a+"#") {
+			return true
+		}
+		// closures of an allowed function
+		if i := strings.Index(key, "$"); i >= 0 && (key[:i] == a || strings.HasSuffix(key[:i], "."+a)) {
+			return true
+		}
+	}
+	return false
+}
+
+// evalFrameSpec decides a `frame` item of a contract file.
+func evalFrameSpec(w *World, sp *Specs, fs *FrameSpec) *FrameResult {
+	res := &FrameResult{Name: "frame." + fs.Name, Desc: "whole-program frame obligation " + fs.Name + " (" + filepathBase(fs.File) + ")", OK: true}
+	x := newExec(w, sp, nil, nil)
+	env := x.newEnv(nil, fs.PkgPath)
+	resolveField := func(tf string) (string, string) { // returns canonical type name, field
+		i := strings.LastIndex(tf, ".")
+		var T types.Type
+		func() {
+			defer func() { recover() }()
+			T = env.resolveType(tf[:i])
+		}()
+		if T == nil {
+			res.OK = false
+			res.Violations = append(res.Violations, "cannot resolve type in "+tf)
+			return "", ""
+		}
+		if st, ok := isStructType(T); ok && fieldIndex(st, tf[i+1:]) < 0 {
+			res.OK = false
+			res.Violations = append(res.Violations, "no such field: "+tf)
+		}
+		return typeName(T), tf[i+1:]
+	}
+	var roots []*ssa.Function
+	all := w.allFuncs(inRepo)
+	byKey := map[string]*ssa.Function{}
+	for _, f := range all {
+		byKey[funcKey(f)] = f
+	}
+	if len(fs.Roots) == 0 {
+		for _, f := range all {
+			if !strings.Contains(pkgPathOf(f), "/cli") && !strings.Contains(pkgPathOf(f), "/samples") {
+				roots = append(roots, f)
+			}
+		}
+	} else {
+		for _, r := range fs.Roots {
+			f := byKey[r]
+			if f == nil {
+				// a whole package: every function of it
+				n := 0
+				for k, ff := range byKey {
+					rest := strings.TrimPrefix(k, r+".")
+					// a package as root: its exported functions and methods (what reflection / callers outside can reach)
+					if strings.HasPrefix(k, r+".") && !strings.Contains(rest, "/") && ff.Parent() == nil && token.IsExported(ff.Name()) {
+						roots = append(roots, ff)
+						n++
+					}
+				}
+				if n == 0 {
+					res.OK = false
+					res.Violations = append(res.Violations, "root not found: "+r)
+				}
+				continue
+			}
+			roots = append(roots, f)
+		}
+	}
+	track := map[string]bool{}
+	for _, r := range fs.ReadsOnly {
+		for _, f := range r.Fields {
+			tn, fn := resolveField(f)
+			track[tn+"."+fn] = true
+		}
+	}
+	fp := w.footprint(roots, &reachCfg{trackReads: track})
+	res.Functions = len(fp.Funcs)
+	summary := map[string]interface{}{"functions_in_reach": len(fp.Funcs), "store_sites": len(fp.Stores), "external_callees": len(fp.External), "dynamic_call_sites": len(fp.Dynamic)}
+	// writesonly
+	for _, r := range fs.WritesOnly {
+		want := map[string]bool{}
+		for _, f := range r.Fields {
+			tn, fn := resolveField(f)
+			want[tn+"."+fn] = true
+		}
+		seen := map[string]bool{}
+		for _, s := range fp.Stores {
+			if s.Field == "" || !want[s.Type+"."+s.Field] {
+				continue
+			}
+			seen[funcKey(s.Fn)] = true
+			if !matchFunc(funcKey(s.Fn), r.Funcs) {
+				res.OK = false
+				res.Violations = append(res.Violations, fmt.Sprintf("store to %s.%s in %s (%s) outside the allowed writers %v", s.Type, s.Field, funcKey(s.Fn), s.Pos, r.Funcs))
+			}
+		}
+		var ws []string
+		for k := range seen {
+			ws = append(ws, k)
+		}
+		sort.Strings(ws)
+		summary["writers of "+strings.Join(r.Fields, ",")] = ws
+	}
+	for _, r := range fs.ReadsOnly {
+		for _, f := range r.Fields {
+			tn, fn := resolveField(f)
+			readers := fp.Reads[tn+"."+fn]
+			sort.Strings(readers)
+			uniq := []string{}
+			for i, rr := range readers {
+				if i == 0 || readers[i-1] != rr {
+					uniq = append(uniq, rr)
+				}
+			}
+			summary["readers of "+f] = uniq
+			for _, rr := range uniq {
+				if !matchFunc(rr, r.Funcs) {
+					res.OK = false
+					res.Violations = append(res.Violations, fmt.Sprintf("load of %s in %s outside the allowed readers %v", f, rr, r.Funcs))
+				}
+			}
+		}
+	}
+	// nowrite types
+	if len(fs.NoWrite) > 0 {
+		forbidden := map[string]bool{}
+		for _, t := range fs.NoWrite {
+			var T types.Type
+			func() {
+				defer func() { recover() }()
+				T = env.resolveType(t)
+			}()
+			if T == nil {
+				res.OK = false
+				res.Violations = append(res.Violations, "cannot resolve type "+t)
+				continue
+			}
+			forbidden[typeName(T)] = true
+		}
+		var localInit []string
+		for _, s := range fp.Stores {
+			if s.Field == "" || !forbidden[s.Type] {
+				continue
+			}
+			if s.Local {
+				localInit = append(localInit, fmt.Sprintf("%s.%s in %s", s.Type, s.Field, funcKey(s.Fn)))
+				continue
+			}
+			res.OK = false
+			res.Violations = append(res.Violations, fmt.Sprintf("store to %s.%s of a shared (not locally allocated) object in %s (%s)", s.Type, s.Field, funcKey(s.Fn), s.Pos))
+		}
+		sort.Strings(localInit)
+		summary["stores initialising objects allocated in the same function (allowed)"] = dedup(localInit)
+	}
+	if fs.NoGlobalStore {
+		except := map[string]bool{}
+		for _, g := range fs.GlobalsExcept {
+			except[g] = true
+		}
+		for _, s := range fp.Stores {
+			if strings.HasPrefix(s.Heap, "global:") {
+				g := strings.TrimPrefix(s.Heap, "global:")
+				if !except[g] && !except[shortPkg(g[:strings.LastIndex(g, ".")])+g[strings.LastIndex(g, "."):]] {
+					res.OK = false
+					res.Violations = append(res.Violations, fmt.Sprintf("store to package-level variable %s in %s (%s)", g, funcKey(s.Fn), s.Pos))
+				}
+			}
+		}
+		var ga []string
+		for g, users := range fp.GlobalAddr {
+			ga = append(ga, g+" <- "+strings.Join(dedup(users), "; "))
+		}
+		sort.Strings(ga)
+		summary["package-level variables whose address is passed to a call"] = ga
+	}
+	for _, r := range fs.NoCall {
+		for name := range fp.External {
+			for _, banned := range r.Fields {
+				if name == banned || externMatches(name, banned) {
+					// who calls it?
+					for f := range fp.Funcs {
+						for _, b := range f.Blocks {
+							for _, in := range b.Instrs {
+								if c, ok := in.(ssa.CallInstruction); ok && !c.Common().IsInvoke() {
+									if cf, ok := c.Common().Value.(*ssa.Function); ok && cf.String() == name && !matchFunc(funcKey(f), r.Funcs) {
+										res.OK = false
+										res.Violations = append(res.Violations, fmt.Sprintf("call of %s in %s (%s)", name, funcKey(f), posStr(w, in)))
+									}
+								}
+							}
+						}
+					}
+				}
+			}
+		}
+	}
+	if len(fs.NoDirectRead) > 0 {
+		for f := range fp.Funcs {
+			for _, b := range f.Blocks {
+				for _, in := range b.Instrs {
+					if c, ok := in.(ssa.CallInstruction); ok && c.Common().IsInvoke() && c.Common().Method.Name() == "Read" {
+						tn := typeName(c.Common().Value.Type())
+						for _, banned := range fs.NoDirectRead {
+							if tn == banned {
+								res.OK = false
+								res.Violations = append(res.Violations, fmt.Sprintf("direct %s.Read call in %s (%s)", tn, funcKey(f), posStr(w, in)))
+							}
+						}
+					}
+				}
+			}
+		}
+	}
+	if fs.HasMapRange {
+		var found []string
+		for f := range fp.Funcs {
+			for _, b := range f.Blocks {
+				for _, in := range b.Instrs {
+					if r, ok := in.(*ssa.Range); ok {
+						if _, isMap := r.X.Type().Underlying().(*types.Map); isMap {
+							found = append(found, funcKey(f))
+							if !matchFunc(funcKey(f), fs.MapRangeOnly) {
+								res.OK = false
+								res.Violations = append(res.Violations, fmt.Sprintf("range over a map (iteration order is a hidden input) in %s (%s), which is not in the reviewed list %v", funcKey(f), posStr(w, in), fs.MapRangeOnly))
+							}
+						}
+					}
+				}
+			}
+		}
+		summary["functions ranging over a map"] = dedup(found)
+	}
+	if len(fs.GlobalAddrOnly) > 0 {
+		for g, users := range fp.GlobalAddr {
+			for _, u := range users {
+				callee := u[strings.Index(u, " -> ")+4:]
+				ok := false
+				for _, pre := range fs.GlobalAddrOnly {
+					norm := strings.NewReplacer("(", "", ")", "", "*", "").Replace(callee)
+					if strings.HasPrefix(norm, pre+".") {
+						ok = true
+					}
+				}
+				if !ok {
+					res.OK = false
+					res.Violations = append(res.Violations, fmt.Sprintf("address of package-level variable %s passed to %s (%s)", g, callee, u))
+				}
+			}
+		}
+	}
+	res.Summary = summary
+	res.Assumptions = []string{
+		"frame " + fs.Name + ": call graph is static calls + every in-repo implementation of an invoked interface method + every address-taken in-repo function and every method of an in-repo type converted to an interface (callbacks); dependencies are assumed not to write fields of repository structs except through those callbacks; reflection and unsafe are not tracked",
+	}
+	sort.Strings(res.Violations)
+	return res
+}
+
+func dedup(s []string) []string {
+	sort.Strings(s)
+	var out []string
+	for i, v := range s {
+		if i == 0 || s[i-1] != v {
+			out = append(out, v)
+		}
+	}
+	return out
+}
+
+func filepathBase(p string) string {
+	if i := strings.LastIndex(p, "/"); i >= 0 {
+		return p[i+1:]
+	}
+	return p
 }
 
 // StoreSite is one write to memory found in the reach set.
@@ -117,7 +400,41 @@ func (w *World) footprint(roots []*ssa.Function, cfg *reachCfg) *Footprint {
 	for _, r := range roots {
 		add(r)
 	}
-	for len(work) > 0 {
+	initsAdded := false
+	for len(work) > 0 || !initsAdded {
+		if len(work) == 0 {
+			// functions registered in package-level tables (custom functions, format factories) are called through reflection or
+			// function values: every function whose address is taken in an in-repo package initialiser is a possible callee
+			initsAdded = true
+			if false {
+				for path, sp := range w.SSAPkg {
+					if !inRepo(path) || strings.Contains(path, "/cli") || strings.Contains(path, "/samples") {
+						continue
+					}
+					if init := sp.Func("init"); init != nil {
+						for _, b := range init.Blocks {
+							for _, in := range b.Instrs {
+								for _, op := range in.Operands(nil) {
+									if op == nil || *op == nil {
+										continue
+									}
+									switch v := (*op).(type) {
+									case *ssa.Function:
+										if _, isCall := in.(ssa.CallInstruction); isCall && in.(ssa.CallInstruction).Common().Value == v {
+											continue
+										}
+										add(v)
+									case *ssa.MakeClosure:
+										add(v.Fn.(*ssa.Function))
+									}
+								}
+							}
+						}
+					}
+				}
+			}
+			continue
+		}
 		f := work[len(work)-1]
 		work = work[:len(work)-1]
 		for _, b := range f.Blocks {
@@ -141,7 +458,11 @@ func (w *World) footprint(roots []*ssa.Function, cfg *reachCfg) *Footprint {
 					if nt, ok := derefType(t).(*types.Named); ok && nt.Obj().Pkg() != nil && inRepo(nt.Obj().Pkg().Path()) {
 						ms := w.Prog.MethodSets.MethodSet(t)
 						for i := 0; i < ms.Len(); i++ {
-							add(w.Prog.MethodValue(ms.At(i)))
+							// only exported methods can be reached by a dependency (through an interface of its own or reflection);
+							// unexported ones are reachable only via in-repo interfaces, which invoke-resolution covers
+							if token.IsExported(ms.At(i).Obj().Name()) {
+								add(w.Prog.MethodValue(ms.At(i)))
+							}
 						}
 					}
 				case *ssa.Store:
